@@ -1,5 +1,6 @@
 from __future__ import annotations
 
+import os
 import sys
 import uuid
 from functools import partial
@@ -60,6 +61,17 @@ BOOLEAN_HTML_ATTRIBUTES = [
 _PROCESS_TOKEN = uuid.uuid4().hex
 
 
+def _new_process_token() -> None:
+    # (a forked child creates objects of its own at addresses that its
+    # siblings use for theirs)
+    global _PROCESS_TOKEN
+    _PROCESS_TOKEN = uuid.uuid4().hex
+
+
+if hasattr(os, 'register_at_fork'):
+    os.register_at_fork(after_in_child=_new_process_token)
+
+
 def _stable_repr(value: Any) -> str:
     """Process-independent representation of a configuration value."""
 
@@ -86,7 +98,13 @@ def _stable_repr(value: Any) -> str:
             return "{}.{}@{}:{:x}".format(
                 module, name, _PROCESS_TOKEN, id(value))
         return "{}.{}".format(module, name)
-    return repr(value)
+    # Anything else (an instance of some class, a partial): a default
+    # representation carries an address, which means something within
+    # this process only.
+    text = repr(value)
+    if ' at 0x' in text:
+        text = "{}@{}".format(text, _PROCESS_TOKEN)
+    return text
 
 
 class PageTemplate(BaseTemplate):
